@@ -251,3 +251,50 @@ def bound_args(call: ast.Call, callee: Func, drop_self: bool = True) -> List[Opt
         if k.arg in params:
             out[params.index(k.arg)] = k.value
     return out
+
+
+class Collect:
+    """one 'collect E for v in X if C...' site: a comprehension, or the equivalent accumulation loop
+    (`for v in X: if ..: continue ... acc.append(E)` / `acc += E` / `acc += [E]`)"""
+
+    def __init__(self, node, elt, target, iter_, conds, acc=None, kind='comp'):
+        self.node, self.elt, self.target, self.iter, self.conds, self.acc, self.kind = node, elt, target, iter_, conds, acc, kind
+        # conds: [(test, polarity)]
+
+    def atoms(self):
+        out = []
+        for t, p in self.conds:
+            out += split_conj(t, p)
+        return out
+
+
+def collects(func: Func) -> List[Collect]:
+    out: List[Collect] = []
+    cfg = cfg_of(func)
+    for n in walk_no_nested(func.node):
+        if isinstance(n, (ast.ListComp, ast.GeneratorExp, ast.SetComp)) and len(n.generators) == 1:
+            g = n.generators[0]
+            out.append(Collect(n, n.elt, g.target, g.iter, [(c, True) for c in g.ifs]))
+        elif isinstance(n, ast.For):
+            hdr = cfg.node_of(n)
+            for st in walk_no_nested(n):
+                elt = acc = None
+                if isinstance(st, ast.Expr) and isinstance(st.value, ast.Call) and isinstance(st.value.func, ast.Attribute) and \
+                        st.value.func.attr in ('append', 'add') and isinstance(st.value.func.value, ast.Name) and len(st.value.args) == 1:
+                    elt, acc = st.value.args[0], st.value.func.value.id
+                elif isinstance(st, ast.AugAssign) and isinstance(st.op, ast.Add) and isinstance(st.target, ast.Name):
+                    acc = st.target.id
+                    elt = st.value.elts[0] if isinstance(st.value, ast.List) and len(st.value.elts) == 1 else st.value
+                if elt is None:
+                    continue
+                # innermost enclosing for must be n
+                inner = [x for x in walk_no_nested(n) if isinstance(x, ast.For) and x is not n and any(y is st for y in ast.walk(x))]
+                if inner:
+                    continue
+                sn = cfg.node_of(st)
+                if sn is None or hdr is None:
+                    continue
+                conds = [(t, p) for t, p in cfg.conditions(sn)
+                         if cfg.node_containing(t) is not None and cfg.dominates(hdr, cfg.node_containing(t)) and cfg.node_containing(t) is not hdr]
+                out.append(Collect(n, elt, n.target, n.iter, conds, acc, 'loop'))
+    return out
